@@ -3,16 +3,146 @@ use super::util::*;
 use crate::case::{Case, Failure, Op};
 use crate::dd::*;
 use crate::gen;
+use super::c13::{every_step, nextval, odd_period, Due, Schedule, WinRef, WmaDrift, REGIMES};
+use crate::ind::Ind;
 use crate::rec::Rec;
+use crate::rng::Rng;
 use crate::runner::{Runner, Tier};
 use crate::spec;
 
 pub const INDS: &[&str] = &["SimpleMovingAverage", "WeightedMovingAverage", "StandardDeviation", "MeanAbsoluteDeviation", "Minimum", "Maximum", "BollingerBands"];
 
+/// exact references of the window statistics (only the ones the indicator needs are filled in)
+pub struct Refs {
+    pub mean: DD,
+    pub wma: DD,
+    pub var: DD,
+    pub mad: DD,
+    pub min: f64,
+    pub max: f64,
+}
+impl Refs {
+    pub fn scratch(ind: &str, w: &[f64]) -> Refs {
+        let z = DD::ZERO;
+        let mut r = Refs { mean: z, wma: z, var: z, mad: z, min: 0.0, max: 0.0 };
+        match ind {
+            "SimpleMovingAverage" => r.mean = spec::mean(w),
+            "WeightedMovingAverage" => r.wma = spec::wma(w),
+            "MeanAbsoluteDeviation" => r.mad = spec::mad(w),
+            "StandardDeviation" => r.var = spec::var(w),
+            "Minimum" => r.min = spec::fmin(w),
+            "Maximum" => r.max = spec::fmax(w),
+            "BollingerBands" => {
+                r.mean = spec::mean(w);
+                r.var = spec::var(w);
+            }
+            _ => {}
+        }
+        r
+    }
+    /// the running double-double evaluations of a long run (not MAD)
+    pub fn running(ind: &str, win: &WinRef) -> Refs {
+        let z = DD::ZERO;
+        let mut r = Refs { mean: z, wma: z, var: z, mad: z, min: 0.0, max: 0.0 };
+        match ind {
+            "SimpleMovingAverage" => r.mean = win.mean(),
+            "WeightedMovingAverage" => r.wma = win.wma(),
+            "StandardDeviation" => r.var = win.var(),
+            "Minimum" => r.min = win.min(),
+            "Maximum" => r.max = win.max(),
+            "BollingerBands" => {
+                r.mean = win.mean();
+                r.var = win.var();
+            }
+            _ => {}
+        }
+        r
+    }
+}
+
+/// verdict on one output: `i` = op index (or step), `t` = inputs since construction/reset, `big` = largest magnitude
+/// fed since then, `k` = window length, `w` = (a preview of) the window for the message
+fn judge(case: &Case, out: &[f64], rf: &Refs, i: usize, t: usize, big: f64, k: usize, w: &[f64]) -> Option<Failure> {
+    let n = case.ps[0];
+    let tol = tau(t) * big;
+    let tol2 = tau(t) * big * big;
+    let bad = |what: &str, got: f64, want: DD, tol: f64| -> Option<Failure> {
+        let d = absdiff(got, want);
+        if !(d <= tol) {
+            // known finding: WMA's running weighted sum drifts to just beyond the envelope on long streams
+            let what = if what == "wma" && t >= 1000 && d <= 2.0 * tol { "wma-drift-marginal" } else { what };
+            fail(case, what, format!("step {} (t={}, n={}): got {:e}, exact {:e}, |diff|={:e} > tol {:e}; window={:?}", i, t, n, got, want.to_f64(), d, tol, &w[..w.len().min(8)]))
+        } else {
+            None
+        }
+    };
+    match case.ind.as_str() {
+        "SimpleMovingAverage" => bad("mean", out[0], rf.mean, tol),
+        "WeightedMovingAverage" => bad("wma", out[0], rf.wma, tol),
+        "MeanAbsoluteDeviation" => bad("mad", out[0], rf.mad, tol),
+        "StandardDeviation" => bad("variance", dd(out[0]).mul(dd(out[0])).to_f64(), rf.var, tol2).or_else(|| if out[0] < 0.0 { fail(case, "negative-sd", format!("step {}: sd {:e}", i, out[0])) } else { None }),
+        "Minimum" => {
+            if out[0] == rf.min {
+                None
+            } else {
+                fail(case, "min", format!("step {}: got {:e}, least element of the last {} inputs is {:e}; window={:?}", i, out[0], k, rf.min, &w[..w.len().min(8)]))
+            }
+        }
+        "Maximum" => {
+            if out[0] == rf.max {
+                None
+            } else {
+                fail(case, "max", format!("step {}: got {:e}, greatest element of the last {} inputs is {:e}; window={:?}", i, out[0], k, rf.max, &w[..w.len().min(8)]))
+            }
+        }
+        "BollingerBands" => {
+            let m = case.ms[0];
+            let (avg, up, lo) = (out[0], out[1], out[2]);
+            let mut r = bad("bb-average", avg, rf.mean, tol);
+            if r.is_none() {
+                if m == 0.0 {
+                    if !(up == avg && lo == avg) {
+                        r = fail(case, "bb-width", format!("step {}: multiplier 0 but bands {:e} {:e} differ from average {:e}", i, up, lo, avg));
+                    }
+                } else {
+                    // band half-widths, compared as variances: ((upper - average)/m)^2 vs var
+                    let v = rf.var;
+                    for (name, hw) in [("upper", dd(up).sub(dd(avg))), ("lower", dd(avg).sub(dd(lo)))] {
+                        let q = hw.div(dd(m));
+                        let obs = q.mul(q);
+                        // rounding of `mean ± sd*m` itself: one ulp of the band level, propagated to the square
+                        let e_abs = 4.0 * f64::EPSILON * (avg.abs() + hw.abs().to_f64());
+                        let e_q = e_abs / m.abs();
+                        let slack = 2.0 * q.abs().to_f64() * e_q + e_q * e_q;
+                        let d = obs.sub(v).abs().to_f64();
+                        if !(d <= tol2 + slack) {
+                            r = fail(case, "bb-width", format!("step {}: {} half-width/m squared {:e} vs variance {:e}, diff {:e} > {:e}", i, name, obs.to_f64(), v.to_f64(), d, tol2 + slack));
+                        }
+                    }
+                }
+            }
+            r
+        }
+        _ => None,
+    }
+}
+
 pub fn check(case: &Case, rec: &mut Rec) -> Option<Failure> {
-    let id = match mk(case, rec) {
-        Ok(i) => i,
-        Err(f) => return Some(f),
+    if case.kind.starts_with("long-") {
+        return check_long(case);
+    }
+    // kinds "default-…": the instance comes from Default::default(); ps/ms hold the documented default parameters
+    let id = if case.kind.starts_with("default-") {
+        let id = rec.default_ind(&case.ind);
+        if rec.get(id).is_none() {
+            return fail(case, "panic", "Default::default() panicked".into());
+        }
+        id
+    } else {
+        match mk(case, rec) {
+            Ok(i) => i,
+            Err(f) => return Some(f),
+        }
     };
     let n = case.ps[0];
     let mut h: Vec<f64> = vec![];
@@ -39,74 +169,97 @@ pub fn check(case: &Case, rec: &mut Rec) -> Option<Failure> {
             None => return fail(case, "panic", format!("panic at step {}", i)),
         };
         let w = spec::last_n(&h, n);
-        let tol = tau(t) * big;
-        let tol2 = tau(t) * big * big;
-        let bad = |what: &str, got: f64, want: DD, tol: f64| -> Option<Failure> {
-            let d = absdiff(got, want);
-            if !(d <= tol) {
-                // known finding: WMA's running weighted sum drifts to just beyond the envelope on long streams
-                let what = if what == "wma" && t >= 1000 && d <= 2.0 * tol { "wma-drift-marginal" } else { what };
-                fail(case, what, format!("step {} (t={}, n={}): got {:e}, exact {:e}, |diff|={:e} > tol {:e}; window={:?}", i, t, n, got, want.to_f64(), d, tol, &w[..w.len().min(8)]))
-            } else {
-                None
-            }
-        };
-        let r = match case.ind.as_str() {
-            "SimpleMovingAverage" => bad("mean", out[0], spec::mean(w), tol),
-            "WeightedMovingAverage" => bad("wma", out[0], spec::wma(w), tol),
-            "MeanAbsoluteDeviation" => bad("mad", out[0], spec::mad(w), tol),
-            "StandardDeviation" => bad("variance", dd(out[0]).mul(dd(out[0])).to_f64(), spec::var(w), tol2).or_else(|| if out[0] < 0.0 { fail(case, "negative-sd", format!("step {}: sd {:e}", i, out[0])) } else { None }),
-            "Minimum" => {
-                let m = spec::fmin(w);
-                if out[0] == m {
-                    None
-                } else {
-                    fail(case, "min", format!("step {}: got {:e}, least element of the last {} inputs is {:e}; window={:?}", i, out[0], w.len(), m, &w[..w.len().min(8)]))
-                }
-            }
-            "Maximum" => {
-                let m = spec::fmax(w);
-                if out[0] == m {
-                    None
-                } else {
-                    fail(case, "max", format!("step {}: got {:e}, greatest element of the last {} inputs is {:e}; window={:?}", i, out[0], w.len(), m, &w[..w.len().min(8)]))
-                }
-            }
-            "BollingerBands" => {
-                let m = case.ms[0];
-                let (avg, up, lo) = (out[0], out[1], out[2]);
-                let mut r = bad("bb-average", avg, spec::mean(w), tol);
-                if r.is_none() {
-                    if m == 0.0 {
-                        if !(up == avg && lo == avg) {
-                            r = fail(case, "bb-width", format!("step {}: multiplier 0 but bands {:e} {:e} differ from average {:e}", i, up, lo, avg));
-                        }
-                    } else {
-                        // band half-widths, compared as variances: ((upper - average)/m)^2 vs var
-                        let v = spec::var(w);
-                        for (name, hw) in [("upper", dd(up).sub(dd(avg))), ("lower", dd(avg).sub(dd(lo)))] {
-                            let q = hw.div(dd(m));
-                            let obs = q.mul(q);
-                            // rounding of `mean ± sd*m` itself: one ulp of the band level, propagated to the square
-                            let e_abs = 4.0 * f64::EPSILON * (avg.abs() + hw.abs().to_f64());
-                            let e_q = e_abs / m.abs();
-                            let slack = 2.0 * q.abs().to_f64() * e_q + e_q * e_q;
-                            let d = obs.sub(v).abs().to_f64();
-                            if !(d <= tol2 + slack) {
-                                r = fail(case, "bb-width", format!("step {}: {} half-width/m squared {:e} vs variance {:e}, diff {:e} > {:e}", i, name, obs.to_f64(), v.to_f64(), d, tol2 + slack));
-                            }
-                        }
-                    }
-                }
-                r
-            }
-            _ => None,
-        };
+        let r = judge(case, &out, &Refs::scratch(&case.ind, w), i, t, big, w.len(), w);
         if r.is_some() {
             return r;
         }
     }
     None
+}
+
+pub const SIGNS: &[&str] = &["positive", "negative", "mixed"];
+
+/// Long reset-free run: the stream is regenerated from extra = (seed, regime index of c13::REGIMES, scale, length,
+/// sign mode); ops stay empty.  Values: the regime's band [scale/1000, scale], as is / negated / shifted by the
+/// centre of the band (both signs).  Compared from scratch at the steps of c13::Schedule; SMA, WMA, SD, BB, Minimum
+/// and Maximum in addition at every step with the exact running evaluations of c13::WinRef.
+fn check_long(case: &Case) -> Option<Failure> {
+    let seed = case.extra[0] as u64;
+    let regime = REGIMES[case.extra[1] as usize % REGIMES.len()];
+    let scale = case.extra[2];
+    let len = case.extra[3] as usize;
+    let sign = case.extra[4] as usize % SIGNS.len();
+    let n = case.ps[0];
+    let m = scale / 1000.0;
+    let mut rng = Rng::new(seed);
+    let mut inst = Ind::create(&case.ind, &case.ps, &case.ms).unwrap().unwrap();
+    let mut win = WinRef::new_for(&case.ind, n);
+    let mut sched = Schedule::new(len, 2 * n + 2, 400);
+    let fast = every_step(&case.ind);
+    let mut prev = m * 30.0;
+    let mut big = 0.0f64;
+    let mut marginal: Option<Failure> = None;
+    let mut drift = WmaDrift { prev: 0.0, worst: 0.0 };
+    for i in 0..len {
+        let v = nextval(&mut rng, regime, i, m, prev);
+        prev = v;
+        let x = match sign {
+            0 => v,
+            1 => -v,
+            _ => v - 500.5 * m,
+        };
+        let out = inst.next(x);
+        win.push(x);
+        big = big.max(x.abs());
+        let t = i + 1;
+        let scratch = match sched.due(t) {
+            Due::Sampled => true,
+            Due::Dense => !fast,
+            Due::No => false,
+        };
+        if !scratch && !fast {
+            continue;
+        }
+        let r = if case.ind == "WeightedMovingAverage" && marginal.is_some() {
+            // inside the known drift regime (see c13::WmaDrift): only a JUMP of the error is a new failure
+            let want = win.wma();
+            let e = dd(out[0]).sub(want).to_f64();
+            let tol = tau(t) * big;
+            drift.worst = drift.worst.max(e.abs() / tol);
+            let jumped = (e - drift.prev).abs() > WmaDrift::JUMP * tol;
+            let pe = drift.prev;
+            drift.prev = e;
+            if jumped {
+                fail(case, "wma", format!("step {} (t={}, n={}): got {:e}, exact {:e}; the error jumped from {:e} to {:e} in ONE step (> tol/4 = {:e}; rounding drift moves it by < tol/100 per step)", i, t, n, out[0], want.to_f64(), pe, e, WmaDrift::JUMP * tol))
+            } else {
+                None
+            }
+        } else if scratch {
+            let w = win.window();
+            if let Some(msg) = win.selfcheck(&w, big) {
+                return fail(case, "harness-reference", msg);
+            }
+            judge(case, &out, &Refs::scratch(&case.ind, &w), i, t, big, w.len(), &w)
+        } else {
+            let k = win.ring.len();
+            let pre: Vec<f64> = win.ring.iter().take(8).copied().collect();
+            judge(case, &out, &Refs::running(&case.ind, &win), i, t, big, k, &pre)
+        };
+        if case.ind == "WeightedMovingAverage" && marginal.is_none() {
+            drift.prev = dd(out[0]).sub(win.wma()).to_f64();
+        }
+        if let Some(f) = r {
+            // the known marginal WMA drift does not end the run: a later failure beyond it takes precedence
+            if f.key.ends_with(":wma-drift-marginal") {
+                if marginal.is_none() {
+                    marginal = Some(f);
+                }
+            } else {
+                return Some(Failure { key: f.key, msg: format!("long run ({} regime, scale {:e}, {} values, seed {}): {}", regime, scale, SIGNS[sign], seed, f.msg) });
+            }
+        }
+    }
+    marginal.map(|f| drift.annotate(f))
 }
 
 const SMALL_ALPHABET: &[f64] = &[-2.0, -1.0, 0.0, 1.0, 1.0e6, 3.0];
@@ -157,7 +310,14 @@ pub fn generate(r: &mut Runner) {
         let regime = *r.rng.pick(gen::REGIMES);
         let scale = *r.rng.pick(&[1e-12, 1e-9, 1e-6, 1e-3, 1.0, 100.0, 1e6, 1e9, 1e11]);
         let positive = r.rng.chance(0.4);
-        let xs = gen::stream(&mut r.rng, regime, len, positive, scale);
+        let mut xs = gen::stream(&mut r.rng, regime, len, positive, scale);
+        // a quarter of the streams negated as a whole: all-negative (or mirrored mixed) windows with distinct values
+        let negated = r.rng.chance(0.25);
+        if negated {
+            for x in xs.iter_mut() {
+                *x = -*x;
+            }
+        }
         let ms: Vec<f64> = if ind == "BollingerBands" { vec![*r.rng.pick(&[0.0, 0.5, 1.0, 2.0, 3.0, 10.0])] } else { vec![] };
         let mut c = Case::new("C01", &format!("window-{}", regime), ind, &[n], &ms);
         c.ops = xs.into_iter().filter(|x| x.abs() <= 1e12).map(Op::Next).collect();
@@ -172,8 +332,78 @@ pub fn generate(r: &mut Runner) {
         }
         let nt = c.ops.len() >= 2 * n + 1;
         r.count(&format!("regime:{}", regime));
+        r.count(if negated { "sign:negated" } else if positive { "sign:positive" } else { "sign:any" });
         r.run(c, nt);
+    }
+    // stage 3: instances obtained from Default::default() (documented default period / multiplier) instead of new:
+    // every sequence of depth d over the stage-1 alphabet (all inside the warm-up of the default periods 9 and 14 —
+    // a pre-filled or padded window shows there) and sampled signed streams that wrap the ring several times
+    let ddepth = if r.tier == Tier::Quick { 4 } else { 6 };
+    r.log_every = if r.tier == Tier::Quick { 41 } else { 1999 };
+    for ind in INDS {
+        let (ps, ms) = super::c11::defaults(ind);
+        for code in 0..a.len().pow(ddepth as u32) {
+            let mut c = Case::new("C01", "default-exhaustive", ind, &ps, &ms);
+            let mut k = code;
+            for _ in 0..ddepth {
+                c.ops.push(Op::Next(a[k % a.len()]));
+                k /= a.len();
+            }
+            r.run(c, true);
+        }
+        let dcases = if r.tier == Tier::Quick { 12 } else { 300 };
+        for j in 0..dcases {
+            let len = r.rng.range(1, if r.tier == Tier::Quick { 200 } else { 2000 });
+            let regime = *r.rng.pick(gen::REGIMES);
+            let scale = *r.rng.pick(&[1e-9, 1e-3, 1.0, 100.0, 1e6, 1e11]);
+            let mut xs = gen::stream(&mut r.rng, regime, len, j % 3 != 2, scale); // positive; positive, negated below; any sign
+            if j % 3 == 1 {
+                for x in xs.iter_mut() {
+                    *x = -*x;
+                }
+            }
+            let mut c = Case::new("C01", &format!("default-{}", regime), ind, &ps, &ms);
+            c.ops = xs.into_iter().filter(|x| x.abs() <= 1e12).map(Op::Next).collect();
+            if j % 4 == 3 && c.ops.len() > 2 {
+                let at = r.rng.range(1, c.ops.len() - 1);
+                c.ops.insert(at, Op::Reset);
+                c.kind = format!("{}-with-reset", c.kind);
+            }
+            let nt = c.ops.len() > ps[0];
+            r.run(c, nt);
+        }
+    }
+    // stage 4: long reset-free runs on ONE instance (hidden update counters: "every 2^k / 10^k calls" branches)
+    r.log_every = u64::MAX; // streams regenerated from the seed, too long for the op log
+    let q = r.tier == Tier::Quick;
+    for (k, ind) in INDS.iter().enumerate() {
+        let linear = *ind == "MeanAbsoluteDeviation";
+        // (length beyond the round count, number of runs): past 2^20 in several regimes, past 2^24 in the regimes
+        // whose windows spread over the whole band (the tolerance at t = 2^24 is 7e-5·M)
+        let mut plan: Vec<(usize, usize, bool)> = vec![(1 << 20, if q { 3 } else { 8 }, false)];
+        if !linear {
+            plan.push((1 << 24, if q { 1 } else { 4 }, true));
+        }
+        for (round, runs, contrast) in plan {
+            for j in 0..runs {
+                let g = if contrast { [7usize, 1][(j + k) % 2] } else { r.rng.below(REGIMES.len()) };
+                let maxn = if linear { 64 } else if contrast { 100 } else { 1000 };
+                let n = match (j + k) % 4 {
+                    0 | 1 => odd_period(&mut r.rng, 3, maxn),
+                    2 => odd_period(&mut r.rng, 3, 16),
+                    _ => r.rng.range(1, maxn),
+                };
+                let scale = *r.rng.pick(&[1e-9, 1e-3, 1.0, 100.0, 1e6, 1e12]);
+                let sign = (j + k) % SIGNS.len();
+                let ms: Vec<f64> = if *ind == "BollingerBands" { vec![*r.rng.pick(&[0.5, 2.0, 3.0])] } else { vec![] };
+                let len = round + 2 * n + 3 + r.rng.below(50);
+                let mut c = Case::new("C01", &format!("long-{}-{}", REGIMES[g], SIGNS[sign]), ind, &[n], &ms);
+                c.extra = vec![(r.rng.u64() % (1 << 50)) as f64, g as f64, scale, len as f64, sign as f64];
+                r.steps += len as u64;
+                r.run(c, true);
+            }
+        }
     }
 }
 
-pub const RULE: &str = "stage 1: every sequence of the stated depth over the alphabet {-2,-1,0,1,1e6,3} (ties, sign changes, zero, a 10^6 spike) for periods 1..=5 and all 7 indicators (all prefixes are checked, so shorter sequences are included); stage 2: sampled periods to 1024, regimes walk/alt/spike/plateau/saw/alphabet/flat/trend/mixed, magnitudes from 1e-12 to 1e12, any sign; a third of the sampled cases and a seventh of the exhaustive ones contain reset() calls (t and the window restart). A case is non-trivial when the stream is longer than the period (stage 1) or wraps the ring at least twice (stage 2); distinct = distinct (indicator, params, stream) encodings.";
+pub const RULE: &str = "stage 1: every sequence of the stated depth over the alphabet {-2,-1,0,1,1e6,3} (ties, sign changes, zero, a 10^6 spike) for periods 1..=5 and all 7 indicators (all prefixes are checked, so shorter sequences are included); stage 2: sampled periods to 1024, regimes walk/alt/spike/plateau/saw/alphabet/flat/trend/mixed, magnitudes from 1e-12 to 1e12, any sign, a quarter of the streams negated as a whole (all-negative windows with distinct values when the stream was a positive one); a third of the sampled cases and a seventh of the exhaustive ones contain reset() calls (t and the window restart); stage 3: instances obtained from Default::default() (judged with the documented default period 9 / 14 and multiplier 2): every sequence of depth 4 (quick) / 6 (thorough) over the stage-1 alphabet (inside the warm-up: a padded or pre-filled window shows) and 12 / 300 sampled streams per indicator (a third positive, a third negated, a third of any sign; a quarter with a reset); stage 4 (hidden update counters): long reset-free runs on one instance, the stream regenerated from a seed stored in the case — per indicator 3 (quick) / 8 (thorough) runs of 2^20+2n+3.. inputs in a random regime of {walk, alt, spike, plateau, saw, ticks, quiet, iid} over the band [scale/1000, scale] (scale from 1e-9 to 1e12; values as is, negated, or shifted to both signs), and for all but MeanAbsoluteDeviation 1 (quick) / 4 (thorough) runs of 2^24+2n+3.. inputs in the regimes whose windows spread over the whole band (iid uniform, alternating extremes; tau(2^24) = 7e-5); periods to 1000 (to 100 for the 2^24 runs, to 64 for MAD), three quarters of them coprime to 10 (dividing no round count; the rest includes powers of two and 1); compared from scratch at the first 2n+2 steps, 400 evenly spaced steps and the end, MeanAbsoluteDeviation in addition at EVERY step of [N-1, N+2n+2] for every round count N (powers of two 2^10..2^24, 10^3, 5·10^3, …, 10^7), and SMA, WMA, SD, BB, Minimum, Maximum at EVERY step of the run against exact running double-double evaluations of the window (cross-checked against the from-scratch evaluation at the sampled steps), so that a counter of any interval up to 2^24 is observed even if its effect heals; the known WMA drift (first exceedance of tau·M by at most 2× at t >= 1000, reported as wma-drift-marginal) does not end a long run: from there on a jump of WMA's signed error by more than tau·M/4 in one step is a failure (rounding moves it by < tau·M/100 per step). A case is non-trivial when the stream is longer than the period (stages 1, 3) or wraps the ring at least twice (stage 2; always in stage 4); distinct = distinct (indicator, params, stream) encodings.";
